@@ -29,7 +29,7 @@ def _prefix(steps, pre):
 
 
 def run_cases(chk, R: Runner, cases, per_program=40, preload=ALL,
-              prog_timeout=120, timeout=900, prelude=None):
+              prog_timeout=120, timeout=900, prelude=None, on_program=None):
     """Pack cases into programs, run, and call case.judge(obs, rec, case).
 
     Cases flagged isolate get a program (forked child) of their own.
@@ -75,6 +75,8 @@ def run_cases(chk, R: Runner, cases, per_program=40, preload=ALL,
             chk.inconclusive_because("program %s: %s" %
                                      (prog["pid"], rec["err"][-400:]))
             continue
+        if on_program is not None and not rec.get("died"):
+            on_program(rec, [cases[ci] for ci in index[prog["pid"]]])
         if rec.get("died"):
             for ci in index[prog["pid"]]:
                 cases[ci].judge(None, rec, cases[ci])
